@@ -76,4 +76,33 @@ theorem decode_encode [Fact (Nat.Prime Field.p)] (hg : ∀ a : ZMod Field.p, a ^
     Nat.mod_eq_of_lt hu, Nat.mod_eq_of_lt ht]
   exact hfwd
 
+/-- whatever `EllswiftCreate`'s loop returns (after any number of rejected draws) decodes to x -/
+theorem createLoop_decodes [Fact (Nat.Prime Field.p)] (hg : ∀ a : ZMod Field.p, a ^ 3 + 7 ≠ 0)
+    (x : Nat) (hx : x < Field.p) (hcurve : ∃ y : Nat, y * y % Field.p = (x ^ 3 + 7) % Field.p) :
+    ∀ (fuel : Nat) (rnd ell rest : List UInt8), createLoop x fuel rnd = some (ell, rest) →
+      beToNat (ell.take 32) ≠ 0 → decode ell = some x
+  | 0, _, _, _, h, _ => by simp [createLoop] at h
+  | fuel + 1, rnd, ell, rest, h, hnz => by
+    unfold createLoop at h
+    simp only [] at h
+    have hp : BV.Secp256k1.p = Field.p := rfl
+    cases hinv : xswiftecInv natOps (beToNat (rnd.take 32) % BV.Secp256k1.p) x
+        (((rnd.drop 32).headD 0).toNat % 8) with
+    | none =>
+      rw [hinv] at h
+      exact createLoop_decodes hg x hx hcurve fuel _ ell rest h hnz
+    | some t =>
+      rw [hinv] at h
+      simp only [Option.some.injEq, Prod.mk.injEq] at h
+      have hu : beToNat (rnd.take 32) % BV.Secp256k1.p < Field.p := by
+        rw [hp]; exact Nat.mod_lt _ p_pos
+      have hl : (natBE (beToNat (rnd.take 32) % BV.Secp256k1.p) 32).length = 32 := natBE_length _ _
+      have hu0 : beToNat (rnd.take 32) % BV.Secp256k1.p ≠ 0 := by
+        intro h0
+        apply hnz
+        rw [← h.1, List.take_left' hl, beToNat_natBE, h0]
+        rfl
+      rw [← h.1]
+      exact decode_encode hg _ x t _ hu hu0 hx hcurve hinv
+
 end BV.C19.Ellswift.Refine
